@@ -24,6 +24,7 @@ CHECKS = {
     "C05": _lazy("graph", "run_c05"),
     "C13": _lazy("frag", "run_c13"),
     "C14": _lazy("annot", "run_c14"),
+    "C15": _lazy("resolve", "run_c15"),
     "C16": _lazy("sampler", "run_c16"),
     "C17": _lazy("sampler", "run_c17"),
     "C18": _lazy("geom", "run_c18"),
